@@ -40,4 +40,21 @@ eval)
   git -C /repo checkout -- .
   [ -z "$(git -C /repo status --porcelain)" ] || echo "EVAL: WARNING /repo not clean after undo"
   ;;
+evalw)
+  # tools/mutant.sh evalw <mutant-dir> <scratch-worktree> <id>...   — like eval, but in a scratch
+  # worktree through VERIF_REPO (does not touch /repo; several can run side by side)
+  wt=$1; shift
+  cd /verif || exit 2
+  git -C "$wt" checkout -q -- . && git -C "$wt" clean -qfd -e mutants -e target
+  cp /repo/Cargo.lock "$wt/Cargo.lock"
+  git -C "$wt" apply "$m/patch.diff" || { echo "EVAL: patch does not apply"; exit 2; }
+  for id in "$@"; do
+    out=$(VERIF_REPO="$wt" ./check "$id" --tier quick 2>&1); rc=$?
+    v=$(echo "$out" | grep -E "^(VIOLATION|INCONCLUSIVE)" | head -n2 | tr '\n' ' ')
+    sig=$(echo "$out" | grep -E "^signature:" | head -n1)
+    last=$(echo "$out" | tail -n1)
+    echo "EVAL $(basename "$(dirname "$(dirname "$m")")")/$(basename "$m") on $id: exit=$rc $v $sig | $last"
+  done
+  git -C "$wt" checkout -q -- .
+  ;;
 esac
